@@ -51,10 +51,13 @@ func (m *wireMon) onData(b []byte) {
 	defer m.mu.Unlock()
 	seq := int(b[1])
 	if seq == int(m.firstTx%uint64(m.s)) {
-		// next new sequence number: a first transmission unless the window
-		// already covers the whole sequence space (which is itself the bug)
+		// The outstanding packets carry the `out` sequence numbers before
+		// this one. As long as out <= n = s-1 this number is not among them,
+		// so the packet is a first transmission (with out == n it is the
+		// (n+1)-th outstanding packet: the violation). Only when the window
+		// already covers the whole sequence space is it ambiguous.
 		out := int(m.firstTx - m.acked)
-		if out < m.s-1 || out == 0 {
+		if out < m.s {
 			m.firstTx++
 			out++
 			if out > m.maxOut {
